@@ -201,6 +201,14 @@ theorem sortSearch_neg (p : Int → Option Bool) {n : Int} (h : n ≤ 0) : sortS
   | zero => rfl
   | succ k => omega
 
+/-- `bytes.Equal` and `bytes.Compare` (-1, 0, +1; lexicographic on unsigned bytes) -/
+def bytesEqual (a b : List Int) : Bool := decide (a = b)
+def bytesCompare : List Int → List Int → Int
+  | [], [] => 0
+  | [], _ :: _ => -1
+  | _ :: _, [] => 1
+  | a :: as, b :: bs => if a < b then -1 else if b < a then 1 else bytesCompare as bs
+
 /-- a `[]uintN` whose elements are given as naturals, as the translated functions see it -/
 def ints (xs : List Nat) : List Int := xs.map Int.ofNat
 
@@ -213,6 +221,22 @@ theorem getD_of_lt {α : Type} (xs : List α) (i : Nat) (d : α) (h : i < xs.len
   simp [List.getD_eq_getElem?_getD, h]
 theorem max_one_cast (q : Nat) : max (1 : Int) (q : Int) = ((max 1 q : Nat) : Int) := by omega
 
+theorem ints_inj {a b : List Nat} : ints a = ints b ↔ a = b := by
+  constructor
+  · intro h
+    induction a generalizing b with
+    | nil => cases b with
+      | nil => rfl
+      | cons y ys => simp [ints] at h
+    | cons x xs ih => cases b with
+      | nil => simp [ints] at h
+      | cons y ys =>
+        simp only [ints, List.map_cons, List.cons.injEq] at h
+        have hx : x = y := by have := h.1; simp only [Int.ofNat_eq_natCast] at this; omega
+        rw [hx, ih (b := ys) (by simpa [ints] using h.2)]
+  · intro h; rw [h]
+theorem bytesEqual_ints (a b : List Nat) : bytesEqual (ints a) (ints b) = decide (a = b) := by
+  unfold bytesEqual; simp [ints_inj]
 theorem ints_append (a b : List Nat) : ints (a ++ b) = ints a ++ ints b := by simp [ints]
 theorem ints_take (a : List Nat) (n : Nat) : ints (a.take n) = (ints a).take n := by simp [ints, List.map_take]
 theorem ints_drop (a : List Nat) (n : Nat) : ints (a.drop n) = (ints a).drop n := by simp [ints, List.map_drop]
